@@ -498,19 +498,33 @@ def check_decoding(ctx: Ctx, F: IlpFacts, rules: Dict[str, str], result_class: s
     oenv: Dict[str, ast.AST] = {}
     # straight-line locals of the outer body defined before the inner loop (row = chosen[k] ...)
     inner = []
+    zipped_items = None          # for (annotator, units), unit_id in zip(<items of self._annotations>, row): slot k of the row with the k-th item
     for st in O.body:
         if isinstance(st, ast.For):
             itn = st.iter
             if isinstance(itn, ast.Call) and dotted(itn.func) == "enumerate" and itn.args and sub(oenv, itn.args[0]) == row and isinstance(st.target, ast.Tuple) \
                     and len(st.target.elts) == 2:
                 inner.append(st)
+            elif isinstance(itn, ast.Call) and dotted(itn.func) == "zip" and len(itn.args) == 2 and not itn.keywords and isinstance(st.target, ast.Tuple) \
+                    and len(st.target.elts) == 2:
+                texts = [norm(expand_locals(f.node, _Subst(oenv).visit(_copy.deepcopy(a)))) for a in itn.args]
+                items_forms = (f"list({sn}._annotations.items())", f"{sn}._annotations.items()", f"tuple({sn}._annotations.items())")
+                for k_ in (0, 1):
+                    if texts[k_] in items_forms and sub(oenv, itn.args[1 - k_]) == row and isinstance(st.target.elts[k_], ast.Tuple) and \
+                            len(st.target.elts[k_].elts) == 2 and all(isinstance(x, ast.Name) for x in st.target.elts[k_].elts) and isinstance(st.target.elts[1 - k_], ast.Name):
+                        inner.append(st)
+                        zipped_items = (st.target.elts[k_].elts[0].id, st.target.elts[k_].elts[1].id, st.target.elts[1 - k_].id)
         elif isinstance(st, ast.Assign) and len(st.targets) == 1 and isinstance(st.targets[0], ast.Name) and not inner:
             oenv[st.targets[0].id] = _Subst(oenv).visit(_copy.deepcopy(st.value))
     if len(inner) != 1:
         ctx.undecided(rules.get("slots") or next(iter(rules.values())), f, O, "loop over the annotator slots of a candidate not found", key="slots")
         return
     I = inner[0]
-    an_i, un_i = norm(I.target.elts[0]), norm(I.target.elts[1])
+    if zipped_items is not None:
+        an_i, un_i = "@position", zipped_items[2]
+        oenv["@annot"], oenv["@units"] = zipped_items[0], zipped_items[1]
+    else:
+        an_i, un_i = norm(I.target.elts[0]), norm(I.target.elts[1])
     cfg = CFG(f.node)
 
     class _Idx(Exception):
